@@ -506,6 +506,10 @@ func (fr *frame) enterBlock(b *ssa.BasicBlock, edges []edge) *State {
 		} else {
 			label = fmt.Sprintf("L%d.%s", li.ordinal, label)
 		}
+		if reason, skip := fx.g.cs.Unproved[fr.c.Func][inv.Label]; skip && inv.Label != "" {
+			s.Assumed = appendUnique(s.Assumed, fmt.Sprintf("%s/inv:%s is assumed at the loop head but not proved (%s)", fr.c.Func, inv.Label, reason))
+			continue
+		}
 		s.oblig("inv-init", label, fr.c.tagsFor(inv), st.reach, t, fx.posOf(b.Instrs[0].Pos()), inv.Src)
 	}
 	// 2. havoc
@@ -1072,6 +1076,9 @@ func (fr *frame) addEdge(from, to *ssa.BasicBlock, st *State, cond string, in ma
 				label = fmt.Sprintf("L%d.%d", li.ordinal, k)
 			} else {
 				label = fmt.Sprintf("L%d.%s", li.ordinal, label)
+			}
+			if _, skip := fx.g.cs.Unproved[fr.c.Func][inv.Label]; skip && inv.Label != "" {
+				continue
 			}
 			s.oblig("inv-keep", label, fr.c.tagsFor(inv), cond, t, pos, inv.Src)
 		}
